@@ -368,6 +368,69 @@ Definition record_satisfiability (s : mstate) (tg : targets) (dets : list (Z * a
   set_txs s (closure_loop (S (length txs1)) txs1 (tg_scanned tg)).
 
 (* ------------------------------------------------------------------------------------------ *)
+(** * The outlook (state.rs [step_floor], [upcoming_step]; satisfiability.rs [upcoming_after]) *)
+
+Inductive skind := KProve | KBroadcast | KRebuild | KReplan | KReevaluate | KWaiting | KComplete.
+
+Definition step_floor (s : mstate) (tg : targets) (dead : list Z) (t : mtx) : option (skind * Z) :=
+  if is_mined t then None
+  else if is_some (t_unsat t) || existsb (fun d => mem d dead) (t_deps t) then None
+  else match t_fail t with
+       | Some reported => Some (KReevaluate, sat_add reported 1)
+       | None =>
+         if is_expired t (tg_scanned tg) then
+           (if is_transfer t then Some (KRebuild, sat_add (t_expiry t) 1) else None)
+         else match t_state t with
+              | Signed | AwaitingSig =>
+                Some (KProve, match t_anchor t with
+                              | Some b => sat_add b (PROVABLE_ANCHOR_DEPTH + 1)
+                              | None => t_sched t end)
+              | Proved => Some (KBroadcast, t_sched t)
+              | Bcast | Mined _ => None
+              end
+       end.
+
+Definition floor_of_id (s : mstate) (tg : targets) (id : Z) : option (Z * skind) :=
+  match find_tx id (m_txs s) with
+  | Some t => option_map (fun p => (snd p, fst p)) (step_floor s tg (dead_set s tg) t)
+  | None => None
+  end.
+
+Definition kind_rank (k : skind) : Z := match k with KBroadcast => 0 | KProve => 1 | KRebuild => 2 | _ => 3 end.
+(** key (height, rank, id) *)
+Definition outlook_lt (a b : Z * (skind * Z)) : bool :=
+  let ka := (snd (snd a), kind_rank (fst (snd a)), fst a) in
+  let kb := (snd (snd b), kind_rank (fst (snd b)), fst b) in
+  (fst (fst ka) <? fst (fst kb))
+  || ((fst (fst ka) =? fst (fst kb)) && ((snd (fst ka) <? snd (fst kb))
+      || ((snd (fst ka) =? snd (fst kb)) && (snd ka <? snd kb)))).
+
+Definition upcoming_step (s : mstate) (tg : targets) (set_aside : list Z) : option (Z * skind) :=
+  match next_step s tg set_aside with
+  | SComplete | SReevaluate => None
+  | SReplan => Some (tg_eff tg, KReplan)
+  | SProve l => match l with (id, _) :: _ => floor_of_id s tg id | [] => None end
+  | SBroadcast id | SRebuild id => floor_of_id s tg id
+  | SWaiting =>
+    let dead := dead_set s tg in
+    let cands := flat_map (fun t =>
+        if negb (mem (t_id t) set_aside) && deps_mined (m_txs s) (t_deps t) && negb (is_expired t (tg_eff tg))
+        then match step_floor s tg dead t with Some f => [(t_id t, f)] | None => [] end
+        else []) (m_txs s) in
+    option_map (fun p => (snd (snd p), fst (snd p))) (min_first outlook_lt cands)
+  end.
+
+Definition upcoming_after (s : mstate) (st : step) (tg : targets) (set_aside : list Z) : option (Z * skind) :=
+  match st with
+  | SComplete | SReplan | SReevaluate | SRebuild _ => None
+  | SWaiting => upcoming_step s tg set_aside
+  | SProve l =>
+    upcoming_step (set_txs s (map (fun t => if existsb (fun p => fst p =? t_id t) l then set_state t Proved else t) (m_txs s)))
+                  tg set_aside
+  | SBroadcast id => upcoming_step (mark_broadcast s id) tg set_aside
+  end.
+
+(* ------------------------------------------------------------------------------------------ *)
 (** * Rebuild of an expired transfer (engine.rs, [rebuild_expired_transfer_inner])
 
     The state-level part: the guards decided from the persisted state (in the order the code
@@ -635,5 +698,14 @@ Section Drive.
     else match plan_loop (advance_fuel s2) tg s2 [] (d1 || d2) r with
          | PDone st s3 dirty _ => ARes st s3 dirty
          | POutOfFuel => AOutOfFuel
+         end.
+  (** [Advance::next]: the same call, projected on the outlook ([None] = out of fuel) *)
+  Definition advance_outlook (s : mstate) (tg : targets) (r : rng) : option (option (Z * skind)) :=
+    let '(s1, d1) := sweep s tg in
+    let '(s2, d2, pending) := adjudicate s1 tg in
+    if pending then Some None
+    else match plan_loop (advance_fuel s2) tg s2 [] (d1 || d2) r with
+         | PDone st s3 _ sa => Some (upcoming_after s3 st tg sa)
+         | POutOfFuel => None
          end.
 End Drive.
